@@ -19,6 +19,7 @@ import json
 import multiprocessing
 import os
 import random
+import threading
 import time
 import traceback
 
@@ -175,18 +176,43 @@ def plan_targets(graph, rng=None, sample=None):
 _G = {}
 
 
+PATH_TIMEOUT_S = 90      # one replayed path normally takes milliseconds
+
+
+class PathTimeout(BaseException):
+    pass
+
+
+def _alarm(signum, frame):
+    raise PathTimeout()
+
+
 def _worker(args):
+    import signal
     plans, exp, budget_s, keep_obs = args
     make_adapter = _G['make']
     t0 = time.time()
     done = steps = 0
     divs = []
     kept = []
+    can_alarm = threading.current_thread() is threading.main_thread()
+    if can_alarm:
+        signal.signal(signal.SIGALRM, _alarm)
     for ik, full in plans:
         if budget_s and time.time() - t0 > budget_s:
             break
         obs = [] if keep_obs else None
-        n, d = replay_path(make_adapter, exp[ik], [(a, exp[k]) for a, k in full], obs_out=obs)
+        try:
+            if can_alarm:
+                signal.setitimer(signal.ITIMER_REAL, PATH_TIMEOUT_S)
+            n, d = replay_path(make_adapter, exp[ik], [(a, exp[k]) for a, k in full], obs_out=obs)
+        except PathTimeout:
+            acts = [a for a, _ in full]
+            n, d = 0, Divergence('hang', len(acts) - 1, acts, None, None, [],
+                                 'a call into the implementation did not return within %ds' % PATH_TIMEOUT_S)
+        finally:
+            if can_alarm:
+                signal.setitimer(signal.ITIMER_REAL, 0)
         steps += n
         done += 1
         if d is not None:
